@@ -363,17 +363,73 @@ def blockdep_oracle(arch, prev, cur, k):
 
 # =====================================================================================================================
 # (b) random op lists through the public generator
-class Arena:
-    """a few buffers at fixed places of region 1 (SRAM) and region 0 (flash) that the generated operations share"""
+TILE_POOL = [0x30000, 0x31000, 0x32000, 0x33000]
 
-    def __init__(self, rng):
-        self.rng = rng
-        self.slots = [0x0, 0x4000, 0x8000, 0x10000, 0x18000, 0x20000]
+
+def rand_tiles(rng, base, H, W, slots):
+    """None (one tile) or (height_0, height_1, width_0, addresses) using 2, 3 or 4 tiles; the extra tiles live in
+    a small pool of addresses that DMAs and other operations also use"""
+    r = rng.random()
+    if r < 0.55 or (H < 2 and W < 2):
+        return None
+    pool = TILE_POOL + slots
+    a = [base] + [rng.choice(pool) for _ in range(3)]
+    kind = rng.choice(["v", "v", "h", "4", "013", "012"])
+    if kind == "v" and H >= 2:
+        h0 = rng.randint(1, H - 1)
+        return (h0, h0, W, [a[0], 0, a[2], 0])
+    if kind == "h" and W >= 2:
+        return (H, H, rng.randint(1, W - 1), [a[0], a[1], 0, 0])
+    if H >= 2 and W >= 2:
+        w0 = rng.randint(1, W - 1)
+        if kind == "4":
+            return (rng.randint(1, H - 1), rng.randint(1, H - 1), w0, a)
+        if kind == "013":       # left column one tile, right column split
+            return (H, rng.randint(1, H - 1), w0, [a[0], a[1], 0, a[3]])
+        if kind == "012":       # left column split, right column one tile
+            return (rng.randint(1, H - 1), H, w0, [a[0], a[1], a[2], 0])
+    return None
+
+
+def tiles_013(f):
+    """feature map that uses tile 3 without tile 2 (width > width_0, height > height_1, height <= height_0)"""
+    return f is not None and f.shape.width > f.tiles.width_0 and f.shape.height > f.tiles.height_1 and \
+        f.shape.height <= f.tiles.height_0
+
+
+def tile3_is_cause(api, arch, op_i, op_o):
+    """True when the real conflict test misses the pair only because get_address_ranges leaves out tile 3 of an operand
+    that uses tiles 0, 1 and 3: with the tile-3 range added to the real access sets, conflicts() answers True"""
+    from ethosu.vela import register_command_stream_util as u
+    from ethosu.vela.range_set import AccessDirection
+
+    def acc(op):
+        if isinstance(op, api.NpuDmaOperation):
+            return u.get_dma_memory_accesses(op), False
+        m = u.get_op_memory_accesses(op, arch)
+        added = False
+        for f, direction in ((op.ifm, AccessDirection.Read), (op.ifm2 if u.has_ifm2(op) else None, AccessDirection.Read),
+                             (op.ofm, AccessDirection.Write)):
+            if tiles_013(f):
+                r = u.get_address_range(f, u.get_strides(f), f.tiles.height_1, f.tiles.width_0, 0, f.shape.height - 1,
+                                        f.shape.width - 1, f.shape.depth - 1)
+                m.add(u.memory_range_set(r), direction)
+                added = True
+        return m, added
+    try:
+        plain = [u.get_dma_memory_accesses(o) if isinstance(o, api.NpuDmaOperation) else u.get_op_memory_accesses(o, arch)
+                 for o in (op_i, op_o)]
+        if plain[0].conflicts(plain[1]):
+            return False
+        (mi, ai), (mo, ao) = acc(op_i), acc(op_o)
+        return (ai or ao) and bool(mi.conflicts(mo))
+    except Exception:
+        return False
 
 
 def gen_oplist(rng, api, acc, arch):
     """a list of DMA + block operations over few shared buffers; returns (ops, description)"""
-    from ethosu.vela.register_command_stream_util import BASE_PTR_INDEX_MEM2MEM, get_address_ranges
+    from ethosu.vela.register_command_stream_util import BASE_PTR_INDEX_MEM2MEM
     n = rng.choice([2, 3, 4, 5, 6, 8, 12])
     lay = rng.choice(["NHWC", "NHCWB16"])
     slots = [0x0, 0x4000, 0x8000, 0x10000, 0x18000, 0x20000]
@@ -381,23 +437,27 @@ def gen_oplist(rng, api, acc, arch):
     h, w, d = rng.choice([(4, 8, 16), (8, 8, 8), (6, 10, 32), (3, 16, 16), (16, 16, 16), (5, 7, 24)])
     ops, desc = [], []
     lut_addr = arch.shram_lut_address
+    tiled = rng.random() < 0.5
 
     def fm_at(slot, hh=h, ww=w, dd=d, tiles=None):
         return mk_fm(api, hh, ww, dd, 1, slot, lay, 8, tiles)
 
+    def tl(slot, hh, ww):
+        return rand_tiles(rng, slot, hh, ww, slots) if tiled else None
+
     last_ofm = None
     for i in range(n):
-        kind = rng.choice(["dma_w", "dma_fm", "dma_lut", "conv", "conv", "dw", "pool", "ew", "ew2"])
+        kind = rng.choice(["dma_w", "dma_fm", "dma_fm", "dma_lut", "conv", "conv", "dw", "pool", "ew", "ew2"])
         if kind == "dma_w":
             dst = rng.choice(wslots)
             ops.append(api.NpuDmaOperation(api.NpuAddressRange(0, rng.choice([0, 0x400, 0x800]), 0x200),
                                            api.NpuAddressRange(1, dst, 0x200)))
             desc.append("dma_w->%#x" % dst)
         elif kind == "dma_fm":
-            src, dst = rng.sample(slots, 2)
+            src, dst = rng.sample(slots + (TILE_POOL if tiled else []), 2)
             ln = 16 * rng.choice([1, 8, 64, h * w * d // 16 or 1])
             ops.append(api.NpuDmaOperation(api.NpuAddressRange(1, src, ln), api.NpuAddressRange(1, dst, ln)))
-            desc.append("dma_fm %#x->%#x" % (src, dst))
+            desc.append("dma_fm %#x->%#x len %d" % (src, dst, ln))
         elif kind == "dma_lut":
             slot = rng.randrange(0, 8)
             ops.append(api.NpuDmaOperation(api.NpuAddressRange(0, 0x1000, 256),
@@ -434,21 +494,18 @@ def gen_oplist(rng, api, acc, arch):
                 op.kernel = api.NpuKernel(kw, kh, sx, sy)
                 op.padding = api.NpuPadding(top=pt, left=pl, bottom=pb, right=pr)
                 od = rng.choice([8, 16]) if kind == "conv" else d
-                tiles = None
-                if rng.random() < 0.15 and ih > 1:
-                    h0 = rng.randint(1, ih - 1)
-                    tiles = (h0, h0, iw, [src, 0, rng.choice(slots), 0])
-                op.ifm = fm_at(src, ih, iw, d, tiles)
-                op.ofm = fm_at(dst, oh, ow, od)
+                op.ifm = fm_at(src, ih, iw, d, tl(src, ih, iw))
+                op.ofm = fm_at(dst, oh, ow, od, tl(dst, oh, ow))
                 if kind in ("conv", "dw"):
                     wa = rng.choice(wslots)
                     op.weights = [api.NpuAddressRange(1, wa, 0x100)] * arch.ncores
                     op.biases = [api.NpuAddressRange(1, wa + 0x100, 0x100)] * arch.ncores
             else:
-                op.ifm = fm_at(src)
-                op.ofm = fm_at(dst)
+                op.ifm = fm_at(src, tiles=tl(src, h, w))
+                op.ofm = fm_at(dst, tiles=tl(dst, h, w))
                 if kind == "ew2":
-                    op.ifm2 = fm_at(rng.choice(slots))
+                    s2 = rng.choice(slots)
+                    op.ifm2 = fm_at(s2, tiles=tl(s2, h, w))
             if rng.random() < 0.25:
                 op.activation = api.NpuActivation(api.NpuActivationOp.TABLE_LOOKUP)
                 op.activation.lookup_table_index = rng.randrange(0, 8)
@@ -459,8 +516,35 @@ def gen_oplist(rng, api, acc, arch):
             op.block_config = rng.choice(cfgs[:8] if rng.random() < 0.6 else cfgs)
             ops.append(op)
             last_ofm = dst
-            desc.append("%s %#x->%#x%s" % (kind, src, dst, " lut" if op.activation else ""))
+            t3 = any(tiles_013(f) for f in (op.ifm, op.ifm2, op.ofm))
+            desc.append("%s %#x->%#x%s%s" % (kind, src, dst, " lut" if op.activation else "",
+                                           " tiles(ifm %s ofm %s)%s" % (tuple(op.ifm.tiles), tuple(op.ofm.tiles), " [tiles 0,1,3]" if t3 else "")
+                                           if tiled else ""))
     return ops, desc
+
+
+def corpus_oplists(api, arch_of):
+    """fixed op lists run first: the wait tests of the repository's suite and the witness of footprint_overapprox_refuted"""
+    out = []
+    acc = api.NpuAccelerator.Ethos_U55_128
+    op = api.NpuPoolingOperation(api.NpuPoolingOp.MAX)
+    op.ifm = mk_fm(api, 8, 8, 16, 1, 0, "NHWC", 8, tiles=(8, 4, 4, [0x0, 0x1000, 0, 0x2000]))
+    op.ofm = mk_fm(api, 8, 8, 16, 1, 0x8000, "NHWC", 8)
+    op.kernel = api.NpuKernel(1, 1)
+    op.padding = api.NpuPadding(0, 0, 0, 0)
+    op.block_config = api.npu_find_block_configs(op, acc)[0]
+    dma = api.NpuDmaOperation(api.NpuAddressRange(0, 0, 0x100), api.NpuAddressRange(1, 0x2000, 0x100))
+    out.append((acc, [dma, op], ["dma 0->0x2000 len 256", "pool 0x0->0x8000 ifm tiles (8,4,4,[0,0x1000,0,0x2000]) [tiles 0,1,3]"]))
+    try:
+        from ethosu.vela.test.extapi import test_extapi_generate_commands as tx
+        conv, dmas = tx.setup_memory_barrier_tests()
+        for a in (api.NpuAccelerator.Ethos_U55_64, api.NpuAccelerator.Ethos_U65_256):
+            out.append((a, [dmas[0], conv[0], dmas[1], conv[1], dmas[2], conv[2], dmas[3], conv[3]], ["suite: dma/conv x4"]))
+            out.append((a, [conv[0], conv[1], dmas[0]], ["suite: conv conv dma0"]))
+            out.append((a, [dmas[0], dmas[1], conv[0], conv[1]], ["suite: dma dma conv conv"]))
+    except Exception:
+        pass
+    return out
 
 
 def fm_bytes(f):
@@ -535,12 +619,13 @@ def stream_oracle(api, ops, arch, sw):
             ro, wo = foot[o]
             # the accumulator marker bytes are sparse: test SHRAM ranges exactly by interval, the rest by set
             if (wi & ro) or (ri & wo) or (wi & wo):
-                return "operation %d issued while operation %d of the other queue, which shares bytes with it (RAW/WAR/WAW), may be unfinished" % (i, o)
+                return ("operation %d issued while operation %d of the other queue, which shares bytes with it (RAW/WAR/WAW), may be "
+                        "unfinished" % (i, o)), (i, o)
         if isdma:
             pd = (pd + [i])[-md:]
         else:
             pk = (pk + [i])[-mk:]
-    return None
+    return None, None
 
 
 def parse_stream_waits(out):
@@ -712,20 +797,36 @@ def run(tier):
             if r != m:
                 diffs.append(("calc_blockdep", {"flat_case": c, "accelerator": a.name, "tag": str(tag)}, r, m))
 
+    # ---------------------------------------------------------------- witness of footprint_overapprox_refuted on the real code
+    from ethosu.vela.register_command_stream_util import get_address_ranges, get_address, get_strides
+    wfm = mk_fm(api, 8, 8, 16, 1, 0, "NHWC", 8, tiles=(8, 4, 4, [0x0, 0x1000, 0, 0x2000]))
+    wr = get_address_ranges(wfm)
+    wad = get_address(wfm, get_strides(wfm), 4, 4, 0)
+    stats["refutation_witness_replayed"] = 1
+    if not any(r is not None and r.region == 1 and r.address <= wad < r.address + r.length for r in wr):
+        fails.append(({"kind": "footprint", "defect": "get_address_ranges_omits_tile3"},
+                      {"feature_map": {"shape": [8, 8, 16], "layout": "NHWC", "tiles": {"height_0": 8, "height_1": 4, "width_0": 4,
+                                       "addresses": [0, 0x1000, 0, 0x2000]}},
+                       "element": [4, 4, 0], "get_address": wad, "get_address_ranges": [None if r is None else list(r) for r in wr],
+                       "theorem": "footprint_overapprox_refuted (coq/props/C04.v)"},
+                      "get_address_ranges omits tile 3 of a feature map that uses tiles 0, 1 and 3 (width > width_0, height_1 < height "
+                      "<= height_0): element (4,4,0) at address %#x is in no reported range, so the conflict test cannot see it" % wad))
+
     # ---------------------------------------------------------------- (b) random op lists through the public generator
     rows = artefacts.accel_rows()
     hcases, hmeta = [], []
-    n_lists = 160 if quick else 4000
+    n_lists = 200 if quick else 5000
     t0 = time.time()
+    todo = corpus_oplists(api, archs)
     for i in range(n_lists):
         a = accs[i % len(accs)]
-        arch = archs[a]
-        ops, desc = gen_oplist(rng, api, a, arch)
-        if not ops:
-            continue
+        ops, desc = gen_oplist(rng, api, a, archs[a])
+        if ops:
+            todo.append((a, ops, desc))
+    for a, ops, desc in todo:
         try:
             words = api.npu_generate_register_command_stream(ops, a)
-        except Exception as ex:  # the generator rejected the list (alignment, limits): not C04's concern
+        except Exception as ex:  # the generator rejected the list (alignment, limits, assertion): outside C04's quantifier
             stats["oplists_rejected_by_generator"] += 1
             continue
         stats["oplists"] += 1
@@ -742,20 +843,38 @@ def run(tier):
             stats["api_streams_checked"] += 1
             if sw is not None and any(w for _, _, w in sw):
                 nontrivial.add(("api", a.name, len(ops), sum(len(w) for _, _, w in sw)))
-            why = None
+            why, pair = None, None
             if o[0] != 1 or sw is None or len(sw) != len(ops):
                 why = "emitted stream does not decode to the given operations"
             else:
-                why = stream_oracle(api, ops, archs[a], sw)
+                why, pair = stream_oracle(api, ops, archs[a], sw)
                 if why is None and o[1] != 1:
-                    why = ("proved validator rejects the stream: operation %d (cross-queue test) / operation %d (BLOCKDEP test)"
-                           % (o[2], o[3]))
+                    if o[2] >= 0:
+                        why = "proved validator: operation %d is issued while an operation of the other queue that shares bytes with it may be unfinished" % o[2]
+                        pair = (o[2], None)
+                    else:
+                        why = "proved validator: BLOCKDEP %d of operation %d is not justified by the block traversal" % (sw[o[3]][1], o[3])
+                        pair = (o[3], None)
             if why:
-                fails.append(({"kind": "api_stream", "accelerator": a.name, "n_ops": len(ops), "why": why[:40]},
-                              {"accelerator": a.name, "ops": desc, "words": list(words), "validator": o, "reason": why},
+                if pair and pair[1] is not None:
+                    t3 = tile3_is_cause(api, archs[a], ops[pair[0]], ops[pair[1]])
+                else:
+                    t3 = False
+                key = {"kind": "api_stream", "accelerator": a.name, "n_ops": len(ops), "why": why[:40]}
+                if t3:
+                    key = {"kind": "api_stream", "defect": "get_address_ranges_omits_tile3"}
+                    why += " [an operand uses tiles 0, 1 and 3: get_address_ranges does not report tile 3]"
+                stats["api_streams_rejected" + ("_tile3" if t3 else "")] += 1
+                fails.append((key, {"accelerator": a.name, "ops": desc, "words": list(words), "validator": o, "reason": why,
+                                    "oracle_pair": pair},
                               "npu_generate_register_command_stream: " + why))
         if hmeta:
-            samples.append({"api_op_list": hmeta[0][2], "accelerator": hmeta[0][0].name, "validator": houts[0]})
+            samples.append({"api_op_list": hmeta[-1][2], "accelerator": hmeta[-1][0].name, "validator": houts[-1]})
+        for o in models.run_parallel("hazard_stats", hcases, exe_name=EXE):
+            if o[0] == 1:
+                for j, kname in enumerate(["api_kernel_pairs", "api_pairs_blockdep_pos", "api_pairs_blockdep_pos_overlapping",
+                                           "api_cross_pairs_tested", "api_waits"]):
+                    stats[kname] += o[1 + j]
 
     # ---------------------------------------------------------------- (c) every stream of the shared compilation plan
     n = 64 if quick else 1600
@@ -796,6 +915,11 @@ def run(tier):
                               % (which, opi, r.get("net_name"), r.get("net_desc"), " ".join(r["job"]["args"][:2]))))
             if len(samples) < 5:
                 samples.append({"net": r.get("net_name"), "args": r["job"]["args"][:4], "npu_ops": o[4], "accepted": o[1] == 1})
+        for o in models.run_parallel("hazard_stats", ccases, exe_name=EXE):
+            if o[0] == 1:
+                for j, kname in enumerate(["compiled_kernel_pairs", "compiled_pairs_blockdep_pos", "compiled_pairs_blockdep_pos_overlapping",
+                                           "compiled_cross_pairs_tested", "compiled_waits"]):
+                    stats[kname] += o[1 + j]
 
     evals = stats["waits_cases"] + stats["rangeset_cases"] + stats["accessset_cases"] + stats["blockdep_cases"] + \
         stats["api_streams_checked"] + programs
